@@ -279,6 +279,11 @@ class MapDecoder:
         int_payload = ("field", ("variant", self.LABEL, "Int"), "0")
         listed = [v for v, _ in t["targets"]]
         here = [v for v, b in t["targets"] if b == s]
+        assigned_discr = ("discr", ("field", ("variant", self.LABEL, "Assigned"), "0"))
+        if subj == assigned_discr:
+            # `CONST_NAME => ..` patterns on a registered label: a switch on the registry enum's discriminant, which IS the
+            # registered integer (C17 R-2: to_i64 is the discriminant)
+            subj = int_payload
         if subj == int_payload:
             if s == t["otherwise"] and not here:
                 return lambda st: {c for c in st if not (c[0] == "int" and c[1] in listed)}
@@ -333,7 +338,7 @@ class MapDecoder:
             if t["k"] != "switch":
                 continue
             subj = pv.operand_term(t["op"], bb, "term")
-            if subj == int_payload:
+            if subj == int_payload or subj == ("discr", ("field", ("variant", self.LABEL, "Assigned"), "0")):
                 ks |= {v for v, _ in t["targets"]}
             elif is_call(subj) and subj[1].endswith("::eq"):
                 for a in subj[2]:
@@ -405,7 +410,7 @@ class MapDecoder:
         for o in outcomes(self.fn, self.pv):
             if o["kind"] == "ok":
                 continue
-            cname, key = self.class_name(self.classes_at(o["bb"])), site_key(o, self.fn)
+            cname, key = self.class_name(self.classes_at(o["bb"])), site_key(o, self.fn, None, self.pv)
             if cname == "pre" and ((key == "propagate:" + codec.TRY_MAP and self.map_source == "try_as_map")
                                    or (key == "type-error:slot?" and self.map_source == "match Map"
                                        and o["term"][2][0] in (("ref", ("param", 0), False), ("param", 0)))):
